@@ -34,10 +34,15 @@ AllLeaks == {"ErrCodeInt", "IntInf", "NullInArray", "ArraySizeInt",
              "EmbTypes",
              "RealBigInt",      \* unpack_numeric: RealNN(int of > 308 digits)
              "HexLongMsg",      \* unpack_numeric: message formats a huge int
-             "ParamNamedElem"}  \* PARAMVALUE named like a sibling element
+             "ParamNamedElem",  \* PARAMVALUE named like a sibling element
+             "TypeNameTrail",   \* TYPE="uint8&#10;" passes a $-anchored pattern
+             "FirstObjectOnly", \* result list: only object 1 is type-checked
+             "QrcBeforeParams"} \* QueryResultClass extracted before the
+                                \* response parameters are validated
 (* leaks present in the tree this suite was built against (IntInf was      *)
-(* repaired by "fix: CIM integer types raised OverflowError ...")           *)
-PinnedLeaks == AllLeaks \ {"IntInf"}
+(* repaired by "fix: CIM integer types raised OverflowError ..."; the last  *)
+(* two never were in the tree: regression configurations only)             *)
+PinnedLeaks == AllLeaks \ {"IntInf", "FirstObjectOnly", "QrcBeforeParams"}
 
 L(lk, name, leaky, fixed) == IF name \in lk THEN leaky ELSE fixed
 P == {"pass"}
@@ -123,7 +128,8 @@ Wanted(shape) ==
     [] shape \in {"class", "classes"} -> {"Class"}
     [] shape = "classnames" -> {"ClassName"}
     [] shape \in {"qualdecl", "qualdecls"} -> {"QualDecl"}
-    [] shape \in {"pull_inst", "pull_query"} -> {"Inst", "InstNoPath"}
+    [] shape \in {"pull_inst", "pull_query", "pull_queryc"} ->
+         {"Inst", "InstNoPath"}
     [] shape = "pull_path" -> {"InstName"}
     [] OTHER -> {}
 
@@ -169,6 +175,20 @@ ResultOut(lk, shape, elem) ==
                 ELSE P
       [] OTHER -> IF ~ob.t /\ k \in Wanted(shape) THEN P ELSE X
     : k \in ob.o}
+
+(* heterogeneous result list (kind o_het): first object of kind d.ty, a      *)
+(* later one of kind d.cls.  list_of_same() rejects unlike element names    *)
+(* while parsing; like elements with unlike content (instance- / class-     *)
+(* level) reach the operation, which checks EVERY object.  Leak            *)
+(* FirstObjectOnly: only the first object is checked, the later ones are    *)
+(* returned as they are.                                                    *)
+HetParsed(d) == ElemOf(d.ty) = ElemOf(d.cls) /\ Obj(d.ty).o # {}
+HetOut(lk, shape, d) ==
+  LET r1 == ResultOut(lk, shape, d.ty)
+      r2 == ResultOut(lk, shape, d.cls)
+      later == L(lk, "FirstObjectOnly",
+                 IF "pass" \in r2 THEN P ELSE {"BADTYPE"}, r2)
+  IN (r1 \ P) \cup (IF "pass" \in r1 THEN later ELSE {})
 
 SingleShapes == {"inst", "instname", "class", "qualdecl"}
 (* operations defined as void: any IRETURNVALUE child is rejected            *)
@@ -240,6 +260,7 @@ DefStage(shape, d) ==
     [] d.k = "v_emb" -> IF d.cls = "numtype" /\ d.site # "prop"
                         THEN "method" ELSE "parse"
     [] d.k = "o_irv" -> IF shape \in VoidShapes THEN "shapechk" ELSE "result"
+    [] d.k = "o_het" -> IF HetParsed(d) THEN "result" ELSE "parse"
     [] d.k = "o_struct" ->
          IF d.cls \in {"attr", "text", "irv_in_param", "mixed"} THEN "parse"
          ELSE IF d.cls \in {"missing", "empty"} /\ shape \notin VoidShapes
@@ -326,7 +347,12 @@ DefOut(lk, shape, d) ==
     [] d.k = "v_c16" ->
          IF meth \/ d.cls \in {"one", "ws"} THEN P ELSE X
     [] d.k = "v_type" ->
-         CASE d.site = "key" ->
+         CASE d.cls = "trail" ->
+                (* '$' also matches before a trailing newline: the name was  *)
+                (* taken for a numeric type and type_from_name() raised      *)
+                IF meth THEN conv \cup L(lk, "TypeNameTrail", {"ValueError"}, {})
+                ELSE X \cup L(lk, "TypeNameTrail", {"ValueError"}, {})
+           [] d.site = "key" ->
                 CASE d.cls = "empty" -> P
                   [] d.cls = "missing" -> P \cup X
                   [] OTHER -> X
@@ -374,10 +400,13 @@ DefOut(lk, shape, d) ==
     [] d.k = "v_nspath" ->
          IF d.cls \in {"hostempty", "nsempty"} THEN P ELSE X
     [] d.k = "v_deep" ->
-         IF d.site = "emb" \/ d.cls = "d50" THEN P
+         IF d.cls = "d50" THEN P
+         ELSE IF d.site = "emb"   \* about 195 levels fit into the stack
+         THEN P \cup L(lk, "Recursion", {"RecursionError"}, X)
          ELSE L(lk, "Recursion", {"RecursionError"}, X)
     [] d.k = "o_irv" ->
          IF shape \in VoidShapes THEN X ELSE ResultOut(lk, shape, d.cls)
+    [] d.k = "o_het" -> IF HetParsed(d) THEN HetOut(lk, shape, d) ELSE X
     [] d.k = "o_struct" ->
          CASE d.cls \in {"attr", "text", "irv_in_param", "mixed"} -> X
            [] d.cls = "missing" -> IF shape \in SingleShapes THEN X ELSE P
@@ -394,7 +423,15 @@ DefOut(lk, shape, d) ==
            [] OTHER -> P
     [] d.k = "p_ctx" -> P \cup X
     [] d.k = "p_misc" ->
-         CASE d.cls = "empty" -> L(lk, "PullEmptyResponse", {"TypeError"}, X)
+         CASE d.cls = "empty" ->
+                (* no child elements: `for p in None`.  _get_rslt_params()   *)
+                (* rejects that; with ReturnQueryResultClass the output      *)
+                (* parameter must not be looked up before that validation    *)
+                IF shape = "pull_queryc" /\ "QrcBeforeParams" \in lk
+                THEN {"TypeError"}
+                ELSE L(lk, "PullEmptyResponse", {"TypeError"}, X)
+           [] d.cls \in {"qrc_notclass", "qrc_novalue", "qrc_missing"} ->
+                IF shape = "pull_queryc" THEN X ELSE P   \* else: ignored
            [] d.cls \in {"noname", "twokids", "badchild", "onlyirv"} -> X
            [] d.cls = "embattr" ->
                 {"XMLParseError"} \cup L(lk, "EmbTypes", {"TypeError"}, X)
